@@ -85,6 +85,18 @@ impl Drop for Resume {
         SUSPEND.with(|c| c.set(self.0));
     }
 }
+/// control is in harness code that was called from the crate (upstream, closures): not the crate's doing
+pub struct OutCrate(u32);
+impl OutCrate {
+    pub fn new() -> OutCrate {
+        OutCrate(IN_CRATE.with(|c| c.replace(0)))
+    }
+}
+impl Drop for OutCrate {
+    fn drop(&mut self) {
+        IN_CRATE.with(|c| c.set(self.0));
+    }
+}
 pub fn take_allocs() -> u64 {
     ALLOCS.with(|a| a.replace(0))
 }
@@ -142,11 +154,14 @@ pub struct World {
     pub mute: bool,
     /// children the environment has completed (oneshot-like): they answer Ready at their next poll
     pub ready: std::collections::BTreeSet<u32>,
+    /// children whose destructor panics (once)
+    pub drop_panic: std::collections::BTreeSet<u32>,
 }
 
 pub static WORLD: Mutex<Option<World>> = Mutex::new(None);
 pub static HOOKS_ON: AtomicBool = AtomicBool::new(false);
 static SEQ: AtomicU64 = AtomicU64::new(0);
+pub static HEARTBEAT: AtomicU64 = AtomicU64::new(0);
 pub static TW_CLONES: std::sync::atomic::AtomicI64 = std::sync::atomic::AtomicI64::new(0);
 pub static TW_DROPS: std::sync::atomic::AtomicI64 = std::sync::atomic::AtomicI64::new(0);
 
@@ -183,6 +198,7 @@ pub fn reset_world(hooklog: bool) {
         produced: 0,
         mute: false,
         ready: Default::default(),
+        drop_panic: Default::default(),
     });
     SEQ.store(0, Ordering::SeqCst);
     TW_CLONES.store(0, Ordering::SeqCst);
@@ -191,6 +207,7 @@ pub fn reset_world(hooklog: bool) {
 
 pub fn ev(line: String) {
     let _s = Suspend::new();
+    HEARTBEAT.fetch_add(1, Ordering::Relaxed);
     with(|w| {
         if !w.mute {
             w.log.push(line)
